@@ -7,6 +7,8 @@ AnyC(t) == [k |-> "any", t |-> t]
 Cons == { AnyC(t) : t \in {"string", "number", "bool", "list", "map", "object", "dynamic"} }
         \cup { [k |-> "ref", t |-> t] : t \in {"dynamic", "string", "number"} } \cup { [k |-> "lit", t |-> t] : t \in {"bool", "string"} }
         \cup { [k |-> "kw", t |-> ""], [k |-> "listref", t |-> "string"], [k |-> "setany", t |-> "string"] }
+        \* a tuple of references whose elements expect different types; the cursor is in the second element (expected type t)
+        \cup { [k |-> "tup2", t |-> t] : t \in {"list", "number"} }
 Typed == {"", "l", "loc.", "loc.s", "loc.o", "loc.o.", "loc.l", "s", "self.", "self.p", "b", "b.", "b.part[0].", "c.", "self.t", "u", "mk", "t", "f", "k", "zz", "loc.x", "d.", "d.t", "d.two."}
 Places == { [level |-> 0, self |-> FALSE, inloc |-> FALSE], [level |-> 0, self |-> FALSE, inloc |-> TRUE],
             [level |-> 1, self |-> TRUE, inloc |-> FALSE], [level |-> 1, self |-> FALSE, inloc |-> FALSE],
